@@ -28,9 +28,10 @@ Proof. exact decode_routes_agree. Qed.
 Print Assumptions C13_decode_routes.
 
 (* ---- on text obtained by serializing a value of the target type every route succeeds and returns it ----
-   The full statement (every route, every type) is FALSE of the code, for two recorded reasons:
-   C13-tryinto-datetime-string (routes through toml::Value / toml::Table fail on date-times) and
-   C13-valueser-root-tuple-variant (toml::ser::ValueSerializer drops the name of a tuple variant at the root). *)
+   The full statement (every route, every type) is FALSE of the code, for one recorded reason:
+   C13-tryinto-datetime-string (routes through toml::Value / toml::Table fail on date-times).
+   (C13-valueser-root-tuple-variant — toml::ser::ValueSerializer dropped the name of a tuple variant at the
+   root — is repaired; its former witness is C13_value_text_tuple_variant below.) *)
 Theorem C13_on_serialized_refuted :
   exists t v out,
     has_type v t /\ ser_toml_root t v = Ok out
@@ -39,15 +40,6 @@ Theorem C13_on_serialized_refuted :
     /\ decode R_tval t out = Err EDe /\ decode R_ttab t out = Err EDe.
 Proof. exact on_serialized_refuted. Qed.
 Print Assumptions C13_on_serialized_refuted.
-
-Theorem C13_on_serialized_value_refuted :
-  exists t v x,
-    has_type v t /\ root_tuple_variant t v /\ ser_value_text t v = Ok x
-    /\ x = VArr [VInt 1; VInt 2]
-    /\ ser_value t v = Ok (VTab [(str "T", x)])
-    /\ decode R_tvd t x = Err EDe /\ decode R_evd t x = Err EDe /\ decode R_tvdval t x = Err EDe.
-Proof. exact on_serialized_value_refuted. Qed.
-Print Assumptions C13_on_serialized_value_refuted.
 
 (* what holds: on the document toml::to_string writes, every toml_edit-based route returns the value —
    for every type; the routes through toml::Value / toml::Table too when the document shows no
@@ -59,13 +51,24 @@ Theorem C13_on_serialized_partial : forall ty v out, has_type v ty -> ser_toml_r
 Proof. exact on_serialized_doc. Qed.
 Print Assumptions C13_on_serialized_partial.
 
-(* ... and on the text of a single value (toml::ser::ValueSerializer), unless the root is a tuple variant *)
-Theorem C13_on_serialized_value_partial : forall ty v x,
-  has_type v ty -> ser_value_text ty v = Ok x -> ~ root_tuple_variant ty v ->
+(* ... and on the text of a single value (toml::ser::ValueSerializer), for every type *)
+Theorem C13_on_serialized_value : forall ty v x,
+  has_type v ty -> ser_value_text ty v = Ok x ->
   (forall r, r = R_tvd \/ r = R_evd -> exists v', decode r ty x = Ok v' /\ sval_eq v v')
   /\ (tunnel_free x = true -> exists v', decode R_tvdval ty x = Ok v' /\ sval_eq v v').
 Proof. exact on_serialized_value. Qed.
-Print Assumptions C13_on_serialized_value_partial.
+Print Assumptions C13_on_serialized_value.
+
+(* the former witness of the repaired defect: E::T(1, 2) is written as { T = [1, 2] } and reads back *)
+Theorem C13_value_text_tuple_variant :
+  has_type tvr_val tvr_ty
+  /\ ser_value_text tvr_ty tvr_val = Ok (VTab [(str "T", VArr [VInt 1; VInt 2])])
+  /\ ser_value_text tvr_ty tvr_val = ser_value tvr_ty tvr_val
+  /\ decode R_tvd tvr_ty (VTab [(str "T", VArr [VInt 1; VInt 2])]) = Ok tvr_val
+  /\ decode R_evd tvr_ty (VTab [(str "T", VArr [VInt 1; VInt 2])]) = Ok tvr_val
+  /\ decode R_tvdval tvr_ty (VTab [(str "T", VArr [VInt 1; VInt 2])]) = Ok tvr_val.
+Proof. exact on_serialized_value_tuple_variant. Qed.
+Print Assumptions C13_value_text_tuple_variant.
 
 (* ---- Value::try_from / Table::try_from against serialize-then-parse ----
    "for every type including those containing date-times" is FALSE (C13-tryfrom-datetime-table). *)
